@@ -63,6 +63,11 @@ func EvalMainModule(vm *r.VM, program *syntax.Program, varInputs r.ElementMap) (
 func evalProgram(vm *r.VM, program *syntax.Program, varInputs r.ElementMap) (r.Element, error) {
 	// 1. import libs
 	for _, importStmt := range program.ImportBlock {
+		// an import is a statement with a line of its own (a failing import, and everything
+		// that goes wrong while the imported module is loaded, is reported from here)
+		if importStmt.ImportName != nil {
+			vm.SetCurrentLine(importStmt.ImportName.GetCurrentLine())
+		}
 		if err := evalImportStmt(vm, importStmt); err != nil {
 			return nil, err
 		}
@@ -72,6 +77,7 @@ func evalProgram(vm *r.VM, program *syntax.Program, varInputs r.ElementMap) (r.E
 		// 2. do exec block -> load values from context.varInputs -> current scope
 		paramList := []r.Element{}
 		for _, inputV := range program.ExecBlock.InputBlock {
+			vm.SetCurrentLine(inputV.GetCurrentLine())
 			inputName, err := MatchIDName(inputV)
 			if err != nil {
 				return nil, err
@@ -136,11 +142,14 @@ func evalStmtBlock(vm *r.VM, stmtBlock *syntax.StmtBlock) (r.Element, error) {
 	for _, stmtX := range stmtBlock.Children {
 		switch v := stmtX.(type) {
 		case *syntax.ClassDeclareStmt:
-			// declare class
+			// declare class (definitions are evaluated ahead of the other statements; a
+			// fault in one of them is reported at its own line)
+			vm.SetCurrentLine(v.GetCurrentLine())
 			if err := evalClassDeclareStmt(vm, v); err != nil {
 				return nil, err
 			}
 		case *syntax.FunctionDeclareStmt:
+			vm.SetCurrentLine(v.GetCurrentLine())
 			if v.DeclareType == syntax.DeclareTypeConstructor {
 				if err := evalConstructorDeclareStmt(vm, v); err != nil {
 					return nil, err
@@ -429,6 +438,8 @@ func evalConstructorDeclareStmt(vm *r.VM, node *syntax.FunctionDeclareStmt) erro
 	constructorLogic := func(instance r.Element, elems []r.Element) (r.Element, error) {
 		// set "this" value
 		vm.PushCallFrame(r.NewFunctionCallFrame(module, instance))
+		// until the first statement of the body runs, the call is at its own header line
+		vm.SetCurrentLine(node.GetCurrentLine())
 
 		if _, err := evalExecBlock(vm, node.ExecBlock, elems); err != nil {
 			vm.PopCallFrameOnError(err)
@@ -560,7 +571,9 @@ func evalWhileLoopStmt(vm *r.VM, node *syntax.WhileLoopStmt) error {
 	// set context's current scope with new one
 
 	for {
-		// #1. first execute expr
+		// #1. first execute expr (on every pass it is the 每当 line that is being executed,
+		// not the last statement of the previous pass)
+		vm.SetCurrentLine(node.GetCurrentLine())
 		trueExpr, err := evalExpression(vm, node.TrueExpr)
 		if err != nil {
 			return err
